@@ -1,17 +1,8 @@
-import Hive.Proofs.SafeMathMul
-/-! SafeLeftShift for every width, signedness and shift count. -/
+import Hive.Proofs.SafeMathLemmas
+import Hive.Gen.C19_SafeMath
+/-! SafeLeftShift (every shift count): the definition generated from core/safemath/safe_math.go meets the specification, for every width and signedness. -/
 namespace Hive.GoInt
 open Hive.Gen.SafeMath IntTy
-
-theorem two_pow_pos (n : Nat) : (0 : Int) < 2 ^ n := Int.pow_pos (by decide)
-
-theorem two_pow_le (a b : Nat) (h : a ≤ b) : (2 : Int) ^ a ≤ 2 ^ b := by
-  obtain ⟨c, rfl⟩ := Nat.exists_eq_add_of_le h
-  rw [Int.pow_add]
-  have h1 := two_pow_pos a
-  have h2 : (1 : Int) ≤ 2 ^ c := two_pow_pos c
-  have := Int.mul_le_mul_of_nonneg_left h2 (Int.le_of_lt h1)
-  omega
 
 theorem safeLeftShift_exact (T : IntTy) (hb : 0 < T.bits) (v : Int) (n : Nat) (hv : T.InRange v) :
     SafeLeftShift T v (n : Int) = exact T (v * 2 ^ n) := by
